@@ -147,8 +147,11 @@ class VM:
 
         try:
             return self._execute()
-        except Exception as e:
-            raise
+        except RecursionError:
+            # Recursion through native frames (array callbacks, accessors,
+            # valueOf, call/apply, eval) nests host frames: report running out
+            # of them as the engine's own limit error, not the host's
+            raise MemoryLimitError("Maximum call stack size exceeded")
 
     def _check_limits(self) -> None:
         """Check memory and time limits."""
